@@ -208,7 +208,8 @@ class Twin:
             self.texec(t, i)
             cm[rec["out"]] = list(cm[a])
         elif op == "update_sigma":
-            t["Sigma"] = A(rec["Sigma"])[cm[a]]
+            Sg = A(rec["Sigma"])
+            t["Sigma"] = Sg if Sg.shape[0] == 1 and self.Rp(a) > 1 else Sg[cm[a]]
             self.texec(t, i)
         elif op == "obs":
             self.twin_obs(rec, t, i)
@@ -330,6 +331,37 @@ def direct_update_check(w, rec, snap, i):
     return n
 
 
+def behaviour(obj, salt):
+    """Observer battery on a clone (same hidden state, never warms the object)."""
+    jnp = lib()["jnp"]
+    X = jnp.asarray(ref.generic_points(int(obj.D), ("upd", salt))[:3])
+    c = ref.clone(obj)
+    return {
+        "evaluate_ln": A(ref.clone(obj).evaluate_ln(X)),
+        "log_integral": A(ref.clone(obj).log_integral()),
+        "integrate_x": A(ref.clone(obj).integrate("x")),
+        "integrate_xx": A(ref.clone(obj).integrate("xx'")),
+        "integrate_cubic": A(ref.clone(obj).integrate("xb'xx'", b_vec=X[0])),
+        "entropy": A(c.entropy()),
+    }
+
+
+def behavioural_update_check(w, rec, pre, dbeh, i):
+    """After update(idx, d): the addressed components behave like d's, all others like before."""
+    a = w.obj(rec["a"])
+    R = int(a.R)
+    idx = norm(rec["idx"], R)
+    post = behaviour(a, (w.salt, i))
+    n = 0
+    for name in post:
+        want = np.array(pre[name], copy=True)
+        for j, r in enumerate(idx):
+            want[r] = dbeh[name][j]
+        common.compare_value("C12.update.behaviour." + name, name if name in common.LOG_NAMES else "integrate", post[name], want, step=i, observer=name)
+        n += 1
+    return n
+
+
 def derive(records, seed, k, Rs):
     """Attach the twin decisions (_tw) for fault stream k to a copy of the records."""
     r = Rng(seed, "subbatch", k)
@@ -388,9 +420,12 @@ def execute(records, salt, findings=None, check_updates=True):
         snap = None
         if rec["op"] == "update" and check_updates:
             snap = ref.snapshot(tw.wp.obj(rec["a"]))
+            pre = behaviour(tw.wp.obj(rec["a"]), (salt, i))
+            dbeh = behaviour(tw.wp.obj(rec["d"]), (salt, i))
         tw.step(rec, i)
         if snap is not None:
             tw.wp.stats["chk.update_direct"] += direct_update_check(tw.wp, rec, snap, i)
+            tw.wp.stats["chk.update_direct"] += behavioural_update_check(tw.wp, rec, pre, dbeh, i)
     return tw
 
 
